@@ -30,6 +30,12 @@ def build(P):
     n0 = len(P.tasks)
     C09.build(P)
     P.tasks[n0:] = [t for t in P.tasks[n0:] if t.name.startswith(("get_heading_bev", "TPMetricsAph"))]
+    n0 = len(P.tasks)
+    import contracts.C18 as C18
+    C18.build(P)
+    # the registry: a query answers from the registered matrices (X -> X: its argument; else X -> Y or the inverse of Y -> X) and does not write the registry —
+    # a registry that caches what it computed would carry one frame's ego pose into a frame copied from it
+    P.tasks[n0:] = [t for t in P.tasks[n0:] if t.name.startswith("TransformDict.transform")]
     P.min_obligations = 80
     P.uncovered[:] = []
     from pyvc.externals import vec
